@@ -81,6 +81,10 @@ def build_plan(choice: Choice, tier):
         # propagates; the file then appears and the same pool object is used again
         # an unusual member of the set: a device file that can be written but not synced or seeked
         p["dev_null_at"] = d(max(1, n - 1), "devnull.at") if (d(4, "devnull") == 3 and p["modes"] in ("w", "a") and n >= 2) else None
+        # fault: a full disk under one member (/dev/full: writes are buffered, the flush inside close() fails with
+        # ENOSPC): leaving the context may raise that error, but EVERY handle must be closed all the same
+        p["dev_full_at"] = d(n, "devfull.at") if (d(4, "devfull") == 3 and p["modes"] in ("w", "a", "wb", "ab", "w+") and n >= 2
+                                                  and p["dev_null_at"] is None) else None
         p["missing_at_first_enter"] = d(n, "missing.which") if (d(4, "missing") == 3 and p["modes"] in ("r", "rb") and n >= 1) else None
         if p["reenter"] or p["missing_at_first_enter"] is not None:
             p["files_form"] = "list" if p["files_form"] in ("generator", "iterator") else p["files_form"]
@@ -108,6 +112,7 @@ def build_plan(choice: Choice, tier):
         # a second thread of the parent that creates files too (the parent forks children meanwhile)
         p["helper_thread_creates"] = [0, 0, 1, 2][d(4, "helper.thread")]
         p["second_with"] = d(4, "second.with") == 3      # the same multi_proc pool object is used by a second with-block
+        p["pre_creates"] = [0, 0, 1, 2][d(4, "pre_creates")]     # create() calls before the with statement is entered
         p["granularity"] = "line" if d(5, "granularity") != 4 else "sync"
     return p
 
@@ -354,7 +359,10 @@ def run_filepool(plan, tmpdir):
         paths = [os.path.basename(p_) for p_ in paths]
     if plan.get("dev_null_at") is not None:
         paths[plan["dev_null_at"]] = "/dev/null"
+    if plan.get("dev_full_at") is not None:
+        paths[plan["dev_full_at"]] = "/dev/full"
     handed = []
+    enospc = [0]
     fds_before = open_fds()
     mode = plan["modes"]
     form = plan.get("files_form", "list")
@@ -402,6 +410,13 @@ def run_filepool(plan, tmpdir):
                     raise BodyError("body end")
         except BodyError as e:
             raised = e
+        except OSError as e:
+            import errno
+            if plan.get("dev_full_at") is not None and e.errno == errno.ENOSPC:
+                raised = e      # the injected full disk surfaced while the handles were closed: legitimate
+                enospc[0] += 1
+            else:
+                v(f"exception:{type(e).__name__}", repr(e))
         except Exception as e:  # noqa
             v(f"exception:{type(e).__name__}", repr(e))
         if plan["raise_after"] is not None and raised is None and not viol:
@@ -420,7 +435,7 @@ def run_filepool(plan, tmpdir):
         leaked = len(open_fds() - fds_before)
         if leaked and not any(x["site"] == "handle-left-open" for x in viol):
             v("descriptor-leak", f"{leaked} file descriptors are still open after leaving the FilePool context")
-    return viol, {"ops": len(handed)}
+    return viol, {"ops": len(handed), "enospc_at_close": enospc[0]}
 
 
 # ----------------------------------------------------------------------------------------
@@ -500,9 +515,16 @@ def scenario_multi(k: Kernel, plan, obs):
 
     raised = None
     helper = None
+    for _ in range(plan.get("pre_creates", 0)):
+        pth = pool.create()
+        log.created.append(("parent-before-with", pth))
+        model.append(pth)
     try:
         with pool:
             obs["phase"] = "inside"
+            if plan.get("pre_creates") and len(pool) != plan["pre_creates"]:
+                viol.append({"class": "tmp-pool-multi", "site": "listing-after-enter",
+                             "message": f"{plan['pre_creates']} files were created before the with statement, the pool lists {len(pool)}"})
             if plan.get("helper_thread_creates"):
                 import threading
                 from sim.kernel import patch_threading
@@ -662,9 +684,17 @@ class Spec:
                 probes["file-vanished-before-remove"] = stats["vanished"]
             if plan["family"] == "tmp-fork":
                 probes["real-fork"] = 1
+            faults = {}
+            if probes.get("exception-in-body"):
+                faults["exception-in-body"] = 1
+            for kf in ("external-delete", "failed-enter-then-retry", "file-vanished-before-remove"):
+                if probes.get(kf):
+                    faults[kf] = probes[kf]
+            if stats.get("enospc_at_close"):
+                faults["disk-full-at-close"] = stats["enospc_at_close"]
             emit({"verdict": "violation" if viol else "ok", "violations": viol, "digest": h, "signature": h[:16],
                   "steps": stats["ops"], "switches": 0, "preemptions": 0, "sync_events": stats["ops"], "max_live": 1,
-                  "probes": probes, "faults": ({"exception-in-body": 1} if probes.get("exception-in-body") else {}),
+                  "probes": probes, "faults": faults,
                   "strategy": "sequential", "nontrivial": stats["ops"] >= 3, "plan": plan,
                   "streams": choice.streams(), "end": "complete", "trace": [json.dumps(plan)] if trace else None})
             return
